@@ -15,7 +15,7 @@ EXPLANATION = (
     "INPUT never creates, APPEND appends and never truncates, OUTPUT creates; (R7) GET decodes every "
     "FIELD list from the start of the record; (R8) the predicates INPUT / LINE INPUT skip and stop "
     "with are tabulated at the separator characters; (R9) PUT and GET seek to an offset computed from "
-    "the record number and the handle's record length only.")
+    "the record number and the handle's record length only; (R10) GET accepts a short record while PUT does not pad; (R11) the text readers decode the collected bytes as a whole - no character cast from a single byte is pushed into the string they return (PRINT # writes UTF-8 bytes).")
 NOT_DECIDED = ["read-back equality of file contents, exactness of EOF, record contents (value-level)"]
 
 RE = "rusty_basic::interpreter::error::RuntimeError"
@@ -507,6 +507,59 @@ def r10_get_tolerates_short_record(ctx, rule="C18.R10"):
     ctx.require(rule, 1)
 
 
+def r11_text_is_decoded_as_it_was_encoded(ctx, rule="C18.R11"):
+    """`read back unchanged`: PRINT # writes the bytes of the string (`as_bytes`: UTF-8).  The readers
+    collect bytes and decode them as a whole; converting each byte to a character on its own
+    (`byte as char`) and pushing that into the result re-encodes every byte above 127 as two bytes, so
+    text with a non-ASCII character comes back longer than it was written.  In everything reachable
+    from ReadInputSource's `input` / `line_input`: no String::push receives a character that was cast
+    from a byte."""
+    prog = ctx.prog
+    roots = [f for f in prog.fns.values() if f.name in ("input", "line_input") and f.impl
+             and "ReadInputSource" in f.impl["self_ty"] and (f.impl.get("trait_ref") or "").endswith("io::Input>")]
+    if len(roots) != 2:
+        raise CheckError("anchor ReadInputSource::input / line_input")
+    reach = [prog.fns[i] for i in prog.reachable_from(roots) if i in prog.fns and prog.fns[i].crate == "rusty_basic"]
+    n = 0
+    casts_seen = 0
+    for f in sorted(reach, key=lambda f: f.id):
+        body = f.body
+        cast_locals = {st["p"][0] for blk in body.blocks for st in blk["s"]
+                       if st["k"] == "assign" and st["r"].get("k") == "cast" and st["r"].get("ty") == "char"
+                       and not st["p"][1]}
+        casts_seen += len(cast_locals)
+        if not cast_locals:
+            continue
+        vs = set(cast_locals)
+        changed = True
+        while changed:
+            changed = False
+            for blk in body.blocks:
+                for st in blk["s"]:
+                    if st["k"] == "assign" and st["r"]["k"] == "use" and not st["p"][1] and st["p"][0] not in vs:
+                        pl = mir.op_place(st["r"]["o"])
+                        if pl is not None and pl[0] in vs:
+                            vs.add(st["p"][0])
+                            changed = True
+        bad = None
+        for b, t in body.calls():
+            cp = t.get("cpath") or ""
+            if cp.split("::")[-1] in ("push", "insert", "extend", "push_str") and "String" in cp:
+                if any(mir.op_place(a) is not None and mir.op_place(a)[0] in vs for a in t["args"][1:]):
+                    bad = t
+        n += 1
+        name = f.path.split("::", 1)[1]
+        ctx.decide(bad is None, rule, "%s:%s" % (rule, name), f.loc,
+                   "characters cast from bytes are only tested, not collected",
+                   "%s pushes a character obtained by `byte as char` into the string it returns (line %s): every byte "
+                   "above 127 is re-encoded as two bytes, so `caf\u00e9` written with PRINT # comes back from LINE INPUT # / "
+                   "INPUT # one character longer" % (name, bad.get("ln") if bad else ""))
+    ctx.analysed_units(rule, reader_functions=len(reach), functions_with_byte_to_char_casts=n)
+    ctx.ok(rule, rule + ":readers-analysed", roots[0].loc, "%d functions reachable from the two readers, %d byte-to-character "
+           "casts" % (len(reach), casts_seen))
+    ctx.require(rule, 1)
+
+
 def run(ctx):
     common.install(ctx)
     r1_open_guard(ctx)
@@ -519,3 +572,4 @@ def run(ctx):
     r8_separator_classes(ctx)
     r9_put_get_same_offset(ctx)
     r10_get_tolerates_short_record(ctx)
+    r11_text_is_decoded_as_it_was_encoded(ctx)
